@@ -206,9 +206,11 @@ func (c *Case) Evaluation(
 			)
 		}
 
+		// a diagnostic inside a branch must not end the case early: the rest
+		// of the branches and the `end` would be read by the enclosing body
 		err = e.Eval(p, ctx, nextT)
 		if err != nil {
-			return err
+			p.Fatal(ctx, err)
 		}
 	}
 
